@@ -48,7 +48,7 @@ RULE = ("cells = solver family x (problem shape, storage, shift, start vector, p
         "optimality system is evaluated from the harness's own pristine copies.  RE-USE facet (cells of kind 'reuse'): ONE set of "
         "argument objects (A and the function form built on it, b, x0, P, shift values, step size, threshold vector, bounds) is "
         "handed to two consecutive solves s1 -> s2: ALL ordered pairs over the step alphabet {CGLS, PCGLS} x {matrix, function} x shift "
-        "{0, .5} + ISTA [FISTA, thorough] x {matrix, function} x {L1, vector box} (so: matrix form then function form on the same b, shift "
+        "{0, .5} + ISTA [FISTA for m > n, thorough] x {matrix, function} x {L1, vector box} (so: matrix form then function form on the same b, shift "
         "0 then shift > 0, two solver objects built from the same arrays, PCGLS / ISTA after CGLS ...), and s1 -> the SAME solver object "
         "solved again; crossed with shape, zero / non-zero start, the representation of b (float64 catalogue b; integer-valued b as "
         "float64 / integer array / float32 [/ list / CUQIarray]) and the representation of scalar parameters (python floats / arrays: "
@@ -92,9 +92,10 @@ BOUND = {
                 "regularisers x 3 step sizes at 2^{10,20,30} and the under-determined 3x5 at 2^10 (dense, largest step), FISTA (momentum) "
                 "3 shapes with m>=n at 2^10 and 2^20 (dense, largest step), structure cells for FISTA/ISTA on all 4 shapes x 3 starts; "
                 "LM restricted domain: starts a in {4, 8, 16, 32, 64} x rho in {0, +-.375, +-.75, +-.875} (35 starts), and the quick "
-                "starts additionally with gradtol 1e-15 (below round-off); re-use histories: 4 shapes x dense/sparse x start {zero, ones, far} "
-                "x 10 (b, parameter) representations (adds integer-valued b as float64, int32, list, CUQIarray and arrays with int64 / float32 b), "
-                "alphabet of 20 steps (adds PCGLS through the solve path and FISTA with momentum on the shapes with m >= n), LM adds rosenbrock",
+                "starts additionally with gradtol 1e-15 (below round-off); re-use histories: 4 shapes x dense x start {zero, ones, far} "
+                "x 10 (b, parameter) representations (adds integer-valued b as float64, int32, list, CUQIarray and arrays with int64 / float32 b) "
+                "and sparse storage x start {zero, ones} x {(catalogue float64, scalars), (integer-valued int64, scalars)}; "
+                "alphabet of 16 steps, 20 on the over-determined shapes (adds PCGLS through the solve path and, for m > n, FISTA with momentum), LM adds rosenbrock",
 }
 ASSUMPTIONS = [
     "numpy dense linear algebra (solve, lstsq, svd) is the trusted base of all reference optimality systems",
@@ -1982,8 +1983,8 @@ def _reuse_alphabet(alpha, m, n):
             for shift in (0.0, 0.5):
                 steps.append({"solver": "PCGLS", "form": form, "shift": shift, "pinv": pinv})
     for solver in (("ISTA",) if q else ("ISTA", "FISTA")):
-        if solver == "FISTA" and m < n:
-            continue        # momentum variant on the under-determined shape: 4e4 iterations per solve, not enumerated
+        if solver == "FISTA" and m <= n:
+            continue        # momentum variant: 5e3 (square) / 4e4 (under-determined) iterations per solve - over-determined shapes only
         for form in ("matrix", "function"):
             for reg in ("l1", "box"):
                 steps.append({"solver": solver, "form": form, "reg": reg})
@@ -2009,8 +2010,10 @@ def _reuse_cells(q, shapes, k):
     alpha = "q" if q else "t"
     for (m, n) in shapes:
         for storage in (("dense",) if q else ("dense", "sparse")):
-            for start in (("zero", "ones") if q else ("zero", "ones", "far")):
-                for (bval, brep, par) in (REUSE_CTX_Q if q else REUSE_CTX_T):
+            # thorough, sparse storage: the two basic contexts and the zero / ones start only
+            ctxs = REUSE_CTX_Q if q else (REUSE_CTX_T if storage == "dense" else [REUSE_CTX_Q[0], REUSE_CTX_Q[2]])
+            for start in (("zero", "ones") if (q or storage == "sparse") else ("zero", "ones", "far")):
+                for (bval, brep, par) in ctxs:
                     for first in _reuse_families(alpha, m, n):
                         out.append({"kind": "reuse", "fam": "lsq", "m": m, "n": n, "storage": storage, "start": start, "bval": bval,
                                     "brep": brep, "par": par, "first": first, "alpha": alpha, "cat": k})
